@@ -134,6 +134,17 @@ def extract_writer(p: Program, rep: Report, rule: str) -> CookieWriter:
             d = rx.compile_dfa(r, al)
             chars = [c for c in al if d.accepts([c])]
             if not chars:
+                # not a per-character predicate at all (e.g. "is already a quoted-string"). What can still be decided is the
+                # necessary condition: no string that takes the unquoted path contains a character that ends the cookie pair or
+                # the header line (controls, ';') - an intersection of two regular languages
+                bad_r = rx.Regex("[\\x00-\\U0010ffff]*[\\x00-\\x1f\\x7f;][\\x00-\\U0010ffff]*")
+                al2 = rx.alphabet_for([r, bad_r])
+                both = rx.intersect(rx.compile_dfa(r, al2), rx.compile_dfa(bad_r, al2))
+                w0 = both.shortest()
+                if w0 is not None:
+                    rep.violation(rule, construct(f"{DS}:{name}", text=f"{method}({pattern[:40]!r})"), loc,
+                                  f"the unquoted cookie path is taken for {rx.show(w0)}: every string accepted by `{method}` of {pattern[:50]!r} is emitted raw, and that language contains "
+                                  "control characters / ';' (an attacker-shaped value injects cookie attributes or splits the header)", witness=rx.show(w0), positive=True)
                 raise Undecided(f"{rule}: the unquoted-path predicate accepts no single character")
             ref = rx.Regex("[" + "".join("\\x%02x" % c if c < 256 else "\\u%04x" % c for c in chars) + "]+")
             d2 = rx.compile_dfa(ref, al)
